@@ -504,6 +504,17 @@ pub fn subjects(tier: &str) -> Vec<Subject> {
             ops: vec![Op::MultiPut { ks: vec![0, 1] }, fl.clone(), Op::Snap, Op::Ingest { items: vec![(0, IKind::Val), (1, IKind::Tomb)] }],
         });
     }
+    {
+        // lz4-compressed data blocks, index blocks and blobs (the length fields that size the
+        // decompression buffers are part of what gets corrupted)
+        let mut lz = big_blocks.clone().with_blob(16);
+        lz.lz4 = true;
+        v.push(Subject {
+            name: "lz4-blob".into(),
+            cfg: lz,
+            ops: vec![Op::Put { k: 0, big: true }, Op::Put { k: 1, big: false }, fl.clone(), Op::Snap, Op::Put { k: 1, big: true }, fl.clone()],
+        });
+    }
     if !quick {
         let mut pp = big_blocks.clone();
         pp.index_partitioning = true;
@@ -519,13 +530,6 @@ pub fn subjects(tier: &str) -> Vec<Subject> {
             name: "major-old-versions".into(),
             cfg: base.clone(),
             ops: vec![Op::MultiPut { ks: vec![0, 1] }, fl.clone(), Op::Snap, Op::Put { k: 0, big: false }, fl.clone(), Op::Major { w: Wm::Zero, target: u64::MAX }],
-        });
-        let mut lz = big_blocks.clone().with_blob(16);
-        lz.lz4 = true;
-        v.push(Subject {
-            name: "lz4-blob".into(),
-            cfg: lz,
-            ops: vec![Op::Put { k: 0, big: true }, Op::Put { k: 1, big: false }, fl.clone(), Op::Snap, Op::Put { k: 1, big: true }, fl.clone()],
         });
         v.push(Subject {
             name: "blob-relocated".into(),
